@@ -91,7 +91,7 @@ def source_audit():
 
 def theorem_names(module_file):
     src = strip_comments(open(module_file).read())
-    return re.findall(r"^\s*theorem\s+([A-Za-z0-9_.']+)", src, flags=re.M)
+    return re.findall(r"^\s*theorem\s+([A-Za-z0-9_.'?!]+)", src, flags=re.M)
 
 
 def leanchecker(mods):
@@ -106,11 +106,12 @@ def leanchecker(mods):
 
 # theorem files that serve several properties: the correctness of the (transcribed) noncontiguous
 # compiler turns Tie A's per-instance validation of that automaton into a theorem for all pattern lists
-EXTRA_THEOREMS = {"C01": ["L1c.lean", "L1cDense.lean"], "C02": ["L1c.lean", "L1cDense.lean"], "C03": ["L1c.lean"], "C19": ["L1c.lean", "L1e.lean"],
-                  "C04": ["L1d.lean", "L1e.lean", "L1dIds.lean"], "C11": ["L1cFold.lean", "L1dFold.lean", "L1eFold.lean", "L1dIdsFold.lean"],
+EXTRA_THEOREMS = {"C01": ["L1c.lean", "L1cDense.lean", "L1cMem.lean"], "C02": ["L1c.lean", "L1cDense.lean", "L1cMem.lean"],
+                  "C03": ["L1c.lean", "L1cMem.lean"], "C19": ["L1c.lean", "L1e.lean"],
+                  "C04": ["L1d.lean", "L1e.lean", "L1dIds.lean"], "C11": ["L1cFold.lean", "L1dFold.lean", "L1eFold.lean", "L1dIdsFold.lean", "C07Fold.lean"],
                   "C16": ["L1d.lean", "L1e.lean", "L1dIds.lean", "L1cIds.lean"],
                   "C15": ["C06.lean", "L1dIds.lean", "L1eSafe.lean", "L1cIds.lean"],
-                  "C08": ["C07Transfer.lean"], "C18": ["C07Transfer.lean"]}
+                  "C08": ["C07Transfer.lean", "C07Fold.lean"], "C18": ["C07Transfer.lean", "C07Fold.lean"]}
 
 
 def audit_theorems(prop, recheck=False):
@@ -176,13 +177,61 @@ def audit_theorems(prop, recheck=False):
 # ---------------------------------------------------------------------
 # running the two sides
 
+HARNESS_DEATHS = []   # (request line, reason) of requests on which the harness process died or hung
+
+
+def _impl_timeout(tag):
+    if tag in ("shrink", "directed", "bufcapdemo"):
+        return 120
+    return 1800 if os.environ.get("VERIF_TIER", "quick") == "quick" else 7200
+
+
 def run_impl(lines, tag, sub="exec"):
+    """Runs the harness on the request lines.  The real code may abort, exhaust its (capped) address space or never
+    return on a request: the harness flushes after every request, so the first unanswered request is the one that
+    killed it; that request is answered `harness-died:<reason>` for each of its configurations, recorded in
+    HARNESS_DEATHS, and the run continues after it (at most three times)."""
     os.makedirs(WORK, exist_ok=True)
-    rf = os.path.join(WORK, "req_%s.txt" % tag)
-    with open(rf, "w") as f:
-        f.write("\n".join(lines) + "\n")
-    p = run([HARNESS, sub, rf])
-    return p.stdout.splitlines(), p
+    out_all, last_p = [], None
+    offset, rest = 0, list(lines)
+    for attempt in range(4):
+        rf = os.path.join(WORK, "req_%s.txt" % tag)
+        with open(rf, "w") as f:
+            f.write("\n".join(rest) + "\n")
+        reason = None
+        try:
+            p = subprocess.run([HARNESS, sub, rf], capture_output=True, text=True, timeout=_impl_timeout(tag), env=env())
+            stdout, last_p = p.stdout, p
+            if p.returncode != 0:
+                reason = "exit-%d" % p.returncode
+        except subprocess.TimeoutExpired as e:
+            stdout = e.stdout.decode("utf-8", "replace") if isinstance(e.stdout, bytes) else (e.stdout or "")
+            reason = "timeout"
+        got = stdout.splitlines()
+        if reason and got and not got[-1].split(" ", 1)[0].isdigit():
+            got = got[:-1]                                   # a torn last line
+        seen = -1
+        for l in got:
+            parts = l.split(" ", 2)
+            if len(parts) == 3 and parts[0].isdigit():
+                seen = max(seen, int(parts[0]))
+                out_all.append("%d %s %s" % (int(parts[0]) + offset, parts[1], parts[2]))
+        if reason is None or sub != "exec":
+            break
+        # the killer: the first non-empty request after the last answered one
+        k = seen + 1
+        while k < len(rest) and (not rest[k].strip() or rest[k].startswith("#")):
+            k += 1
+        if k >= len(rest):
+            break
+        HARNESS_DEATHS.append((rest[k], reason))
+        op, kv = parse_req(rest[k])
+        for c in (kv.get("pcfg") if op == "packed" else kv.get("cfgs", "-")).split(";"):
+            out_all.append("%d %s harness-died:%s" % (k + offset, c, reason))
+        offset, rest = offset + k + 1, rest[k + 1:]
+        if not rest or attempt == 3:
+            break
+    return out_all, last_p
 
 
 def run_model(lines):
